@@ -172,6 +172,9 @@ func Record(name string, cl Class, sample any) {
 	for _, l := range cl.Labels {
 		cs.Labels[l]++
 	}
+	if cs.Evaluations == 1 && !cl.NonTrivial {
+		cs.Samples = append(cs.Samples, truncateSample(sample))
+	}
 	if cl.NonTrivial {
 		cs.NonTrivial++
 		h := hash64(cl.Fingerprint)
